@@ -253,6 +253,27 @@ def run(ctx: Ctx) -> Result:
                                        'expected': 'True exactly when every script ran to its own end / own RETURN without raising and the stack is [ff]; never raises',
                                        'observed': pr, 'how_to_run': './check C01 --replay <this file>'})
     vmrun.in_big_thread(work2)
+    # "for all initial cache values": what an earlier authorization wrote to ITS cache is not an initial value of a later one, also when
+    # the embedder hands the same context dict to both (with or without a timestamp of its own)
+    def shared_context():
+        import copy
+        F = vmrun.impl.functions(); N = G.names()
+        l1 = [G.push(b'\x2a') + bytes([N['WRITE_CACHE'], 1]) + b'k\x01', bytes([N['TRUE']])]
+        l2 = [bytes([N['FALSE'], N['POP0']]), bytes([N['READ_CACHE'], 1]) + b'k' + G.push(b'\x2a') + bytes([N['EQUAL_VERIFY'], N['TRUE']])]
+        l3 = [bytes([N['TRY_EXCEPT'], 0, 2, N['FALSE'], N['VERIFY'], 0, 0, N['TRUE']])]          # leaves b'E' in its own cache
+        l4 = [bytes([N['READ_CACHE'], 1]) + b'E' + bytes([N['POP0'], N['TRUE']])]
+        with vmrun.Env(vmrun.Cfg()) as env:
+            for ctx_ in ({'timestamp': vmrun.NOW}, {'timestamp': vmrun.NOW, 'sigfield1': b'x'}, {'sigfield1': b'x'}, {}):
+                d = dict(ctx_); snap = copy.deepcopy(d)
+                got = []
+                for lst in (l1, l2, l3, l4):
+                    try: got.append(F.run_auth_scripts(list(lst), d))
+                    except BaseException as e: got.append('RAISED:' + type(e).__name__)
+                res.note_case(('shared-context', tuple(sorted(ctx_))))
+                if got != [True, False, True, False] or d != snap:
+                    res.violations.append({'input': {'cfg': vmrun.Cfg().line(), 'cache': vmrun.cache_str(snap, False), 'scripts': [x.hex() for x in l1 + l2], 'history': 'four authorizations handed the same context dict: write k / read k / TRY that fails / read E'},
+                                           'expected': 'verdicts [True, False, True, False], the context dict unchanged', 'observed': f'verdicts {got}, context afterwards has keys {sorted(map(repr, d))}', 'how_to_run': './check C01 --tier quick'})
+    vmrun.in_big_thread(shared_context)
     # python -O : the verdict must not be carried by assert statements
     sel = [c for c in cases if c[0].is_default_flags() and not c[0].contracts][:ctx.n(40, 400)]
     payload = [{'scripts': [s.hex() for s in sc], 'mi': cfg.max_items, 'ms': cfg.max_item_size, 'cl': cfg.call_limit} for cfg, cache, sc in sel]
